@@ -86,6 +86,9 @@ def write_set(dirpath: Path, base: str, data2d: np.ndarray, nbits: int, split: l
         hh = dict(hdr)
         hh["tstart"] = tstart + at * tsamp / 86400.0
         hh["tsamp"] = tsamp
+        # header lengths differ from file to file (rawdatafile is the one key allowed to differ in a set)
+        hh.setdefault("extra", {})
+        hh["extra"] = dict(hh["extra"], rawdatafile="scan_" + "9" * (1 + 2 * i) + ".fil")
         write_fil(p, data2d[at:at + k].ravel(), c, nbits, **hh)
         names.append(str(p))
         at += k
@@ -101,3 +104,41 @@ def identity_data(n: int, c: int, nbits: int, rng=None, mode: str = "identity") 
     else:
         a = rng.integers(0, top, size=(n, c), dtype=np.int64)
     return a
+
+
+def parse_sigproc(raw: bytes) -> tuple[dict, int]:
+    """Independent SIGPROC header parser: returns (ordered dict of key -> value, header length)."""
+    def rs(at):
+        (n,) = struct.unpack_from("<I", raw, at)
+        return raw[at + 4:at + 4 + n].decode("latin-1"), at + 4 + n
+    key, at = rs(0)
+    if key != "HEADER_START":
+        raise ValueError("not a sigproc header")
+    out = {}
+    while True:
+        key, at = rs(at)
+        if key == "HEADER_END":
+            return out, at
+        fmt = KEYS[key]
+        if fmt == "str":
+            out[key], at = rs(at)
+        else:
+            (out[key],) = struct.unpack_from("<" + fmt, raw, at)
+            at += struct.calcsize("<" + fmt)
+
+
+def decode_values(data: bytes, nbits: int) -> np.ndarray:
+    """Decode a SIGPROC data section at the declared depth (own decoder, numpy only)."""
+    if nbits == 8:
+        return np.frombuffer(data, dtype="<u1").astype(np.int64)
+    if nbits == 16:
+        return np.frombuffer(data[: len(data) // 2 * 2], dtype="<u2").astype(np.int64)
+    if nbits == 32:
+        return np.frombuffer(data[: len(data) // 4 * 4], dtype="<f4").astype(np.float64)
+    b = np.frombuffer(data, dtype="<u1").astype(np.int64)
+    fact = 8 // nbits
+    out = np.zeros((b.size, fact), dtype=np.int64)
+    for j in range(fact):
+        sh = j * nbits if nbits == 1 else (fact - 1 - j) * nbits
+        out[:, j] = (b >> sh) & ((1 << nbits) - 1)
+    return out.ravel()
